@@ -139,6 +139,15 @@ CLAIMED["C08"] = dict(
          "(length-based classification of ECDSA DER signatures).",
     ref="DESIGN.md section 3 C08")
 
+CLAIMED["C12"] = dict(
+    technique="symbolic execution of the real configuration-area classes over the real device database with every "
+              "register of the area a solver variable (z3 QF_BV): fixed export size, register bytes at their offsets, "
+              "parse(export) and configuration round trips as byte equalities, computed fields as bit-vector identities",
+    note="Out of the claim: the template / JSON-schema clause of C12 (YAML and jsonschema text processing cannot be "
+         "encoded - seeded change C12_1 lives there and is not detected), fuse maps, memcfg option words, ROTKH/seal with "
+         "real keys; two recorded findings (IFR CMAC table register file).",
+    ref="DESIGN.md section 3 C12")
+
 NOT_APPLICABLE = {
     "C18": "quantifies over OS-level crash points of a pickle file and over process schedules around a FileLock; the "
            "deciding code is pickle (C) / the file system / the scheduler - no SPSDK arithmetic or layout to encode; "
